@@ -424,100 +424,137 @@ func ParentMain(id, tier string, seed int64) int {
 	defer os.RemoveAll(tmp)
 
 	type span struct{ from, to int }
-	work := make(chan span, len(cases)+1)
+	var spans []span
 	for i := 0; i < len(cases); i += batch {
 		e := i + batch
 		if e > len(cases) {
 			e = len(cases)
 		}
-		work <- span{i, e}
+		spans = append(spans, span{i, e})
 	}
-	close(work)
 
 	var mu sync.Mutex
 	results := map[int]result{}
 	raceReports := map[string]int{}
-	var wg sync.WaitGroup
-	for j := 0; j < jobs; j++ {
-		wg.Add(1)
-		go func(j int) {
-			defer wg.Done()
-			for sp := range work {
-				from := sp.from
-				for from < sp.to {
-					logPath := filepath.Join(tmp, fmt.Sprintf("b%d-%d.log", from, sp.to))
-					outPath := logPath + ".out"
-					os.Remove(logPath)
-					of, _ := os.Create(outPath)
-					ctx, cancel := context.WithTimeout(context.Background(), time.Duration(sp.to-from)*caseTimeout+30*time.Second)
-					cmd := exec.CommandContext(ctx, exe, "child", id, tier, strconv.FormatInt(seed, 10), strconv.Itoa(from), strconv.Itoa(sp.to), logPath)
-					cmd.Stdout = of
-					cmd.Stderr = of
-					cmd.Env = append(os.Environ(), "GOMAXPROCS=4", "TMPDIR="+tmp)
-					if race {
-						cmd.Env = append(cmd.Env, "GORACE=halt_on_error=0 exitcode=0 log_path="+filepath.Join(tmp, fmt.Sprintf("race-%d", from)))
-					}
-					cmd.Cancel = func() error { return cmd.Process.Signal(syscall.SIGQUIT) }
-					cmd.WaitDelay = 10 * time.Second
-					_ = cmd.Run()
-					cancel()
-					of.Close()
-					// parse log
-					begun := map[int]Case{}
-					ended := map[int]Verdict{}
-					if lf, err := os.Open(logPath); err == nil {
-						sc := bufio.NewScanner(lf)
-						sc.Buffer(make([]byte, 1<<20), 64<<20)
-						for sc.Scan() {
-							var l logLine
-							if json.Unmarshal(sc.Bytes(), &l) != nil {
-								continue
+	pass := 0
+	runSpans := func(spans []span, jobs int) {
+		pass++
+		work := make(chan span, len(spans)+1)
+		for _, sp := range spans {
+			work <- sp
+		}
+		close(work)
+		var wg sync.WaitGroup
+		for j := 0; j < jobs; j++ {
+			wg.Add(1)
+			go func(j int) {
+				defer wg.Done()
+				for sp := range work {
+					from := sp.from
+					for from < sp.to {
+						logPath := filepath.Join(tmp, fmt.Sprintf("p%d-b%d-%d.log", pass, from, sp.to))
+						outPath := logPath + ".out"
+						os.Remove(logPath)
+						of, _ := os.Create(outPath)
+						ctx, cancel := context.WithTimeout(context.Background(), time.Duration(sp.to-from)*caseTimeout+30*time.Second)
+						cmd := exec.CommandContext(ctx, exe, "child", id, tier, strconv.FormatInt(seed, 10), strconv.Itoa(from), strconv.Itoa(sp.to), logPath)
+						cmd.Stdout = of
+						cmd.Stderr = of
+						cmd.Env = append(os.Environ(), "GOMAXPROCS=4", "TMPDIR="+tmp)
+						if race {
+							cmd.Env = append(cmd.Env, "GORACE=halt_on_error=0 exitcode=0 log_path="+filepath.Join(tmp, fmt.Sprintf("race-%d", from)))
+						}
+						cmd.Cancel = func() error { return cmd.Process.Signal(syscall.SIGQUIT) }
+						cmd.WaitDelay = 10 * time.Second
+						_ = cmd.Run()
+						cancel()
+						of.Close()
+						// parse log
+						begun := map[int]Case{}
+						ended := map[int]Verdict{}
+						if lf, err := os.Open(logPath); err == nil {
+							sc := bufio.NewScanner(lf)
+							sc.Buffer(make([]byte, 1<<20), 64<<20)
+							for sc.Scan() {
+								var l logLine
+								if json.Unmarshal(sc.Bytes(), &l) != nil {
+									continue
+								}
+								if l.Kind == "BEGIN" && l.Case != nil {
+									begun[l.Idx] = *l.Case
+								} else if l.Kind == "END" && l.V != nil {
+									ended[l.Idx] = *l.V
+								}
 							}
-							if l.Kind == "BEGIN" && l.Case != nil {
-								begun[l.Idx] = *l.Case
-							} else if l.Kind == "END" && l.V != nil {
-								ended[l.Idx] = *l.V
+							lf.Close()
+						}
+						mu.Lock()
+						next := from
+						crashed := -1
+						for i := from; i < sp.to; i++ {
+							idx := cases[i].Idx
+							if v, ok := ended[idx]; ok {
+								results[idx] = result{cases[i], v}
+								next = i + 1
+							} else if _, ok := begun[idx]; ok {
+								crashed = i
+								break
+							} else {
+								break
 							}
 						}
-						lf.Close()
-					}
-					mu.Lock()
-					next := from
-					crashed := -1
-					for i := from; i < sp.to; i++ {
-						idx := cases[i].Idx
-						if v, ok := ended[idx]; ok {
-							results[idx] = result{cases[i], v}
-							next = i + 1
-						} else if _, ok := begun[idx]; ok {
-							crashed = i
-							break
-						} else {
-							break
+						mu.Unlock()
+						if crashed >= 0 {
+							out, _ := os.ReadFile(outPath)
+							v := classifyCrash(out, cases[crashed].Idx)
+							mu.Lock()
+							results[cases[crashed].Idx] = result{cases[crashed], v}
+							mu.Unlock()
+							next = crashed + 1
+						} else if next == from {
+							// child made no progress at all
+							out, _ := os.ReadFile(outPath)
+							mu.Lock()
+							results[cases[from].Idx] = result{cases[from], Verdict{Status: Inconclusive, What: "child failed to start case", Trace: tailLines(string(out), 30)}}
+							mu.Unlock()
+							next = from + 1
 						}
+						from = next
 					}
-					mu.Unlock()
-					if crashed >= 0 {
-						out, _ := os.ReadFile(outPath)
-						v := classifyCrash(out, cases[crashed].Idx)
-						mu.Lock()
-						results[cases[crashed].Idx] = result{cases[crashed], v}
-						mu.Unlock()
-						next = crashed + 1
-					} else if next == from {
-						// child made no progress at all
-						out, _ := os.ReadFile(outPath)
-						mu.Lock()
-						results[cases[from].Idx] = result{cases[from], Verdict{Status: Inconclusive, What: "child failed to start case", Trace: tailLines(string(out), 30)}}
-						mu.Unlock()
-						next = from + 1
-					}
-					from = next
 				}
-			}
-		}(j)
+			}(j)
+		}
+		wg.Wait()
 	}
-	wg.Wait()
+	runSpans(spans, jobs)
+
+	// a case without a verdict (watchdog, rest not reached: typically a loaded machine) is run once more,
+	// alone in its child and with fewer children; a verdict reached then replaces "inconclusive"
+	var again []span
+	for i, c := range cases {
+		if r, ok := results[c.Idx]; ok && r.v.Status == Inconclusive {
+			again = append(again, span{i, i + 1})
+		}
+	}
+	retried := len(again)
+	if retried > 0 && os.Getenv("VERIF_NORETRY") == "" {
+		first := map[int]string{}
+		for _, sp := range again {
+			first[cases[sp.from].Idx] = results[cases[sp.from].Idx].v.What
+		}
+		rj := jobs / 2
+		if rj < 1 {
+			rj = 1
+		}
+		runSpans(again, rj)
+		for idx, what := range first {
+			if r := results[idx]; r.v.Status != Inconclusive {
+				r.v.Count("first_attempt_inconclusive", 1)
+				_ = what
+				results[idx] = r
+			}
+		}
+	}
 
 	// race reports (observations only)
 	if race {
